@@ -20,7 +20,7 @@ from harness import c15_gen
 
 APIS = [
     "optimize", "fold_constants", "remove_unused_nodes", "remove_unused_functions", "rewrite_default",
-    "rewrite_empty", "rewrite_rules", "convert_version", "replace_functions",
+    "rewrite_empty", "rewrite_rules", "convert_version", "replace_functions", "replace_functions_keep",
 ]
 
 
@@ -70,6 +70,10 @@ def gen_options(rng, api: str, model_opset: int) -> dict:
         return {"rules": rng.choice(["cast_cast", "noop", "ruleset"])}
     if api == "convert_version":
         targets = [v for v in (17, 18, 19, 20, 21, 22, 23)]
+        if rng.random() < 0.3:
+            # the onnx C-API fallback: a step the native converter does not support (down-conversion, or source < 18)
+            t = rng.choice([19, 20]) if model_opset < 18 else max(18, model_opset - rng.choice([1, 1, 2]))
+            return {"target_version": t, "fallback": True}
         o = {"target_version": rng.choice(targets + [model_opset])}
         r = rng.random()
         if r < 0.3:
@@ -122,7 +126,7 @@ def call_proto(api: str, M: onnx.ModelProto, o: dict, fns=None):
         r = rw.rewrite(M, _rules(rw, o["rules"]))
     elif api == "convert_version":
         r = vc.convert_version(M, **o)
-    elif api == "replace_functions":
+    elif api in ("replace_functions", "replace_functions_keep"):
         r = rep.replace_functions(M, fns)
     else:
         raise ValueError(api)
@@ -155,7 +159,7 @@ def call_ir(api: str, m, o: dict, fns=None):
         r = rw.rewrite(m, _rules(rw, o["rules"]))
     elif api == "convert_version":
         r = vc.convert_version(m, **o)
-    elif api == "replace_functions":
+    elif api in ("replace_functions", "replace_functions_keep"):
         r = rep.replace_functions_inplace(m, [ir.serde.deserialize_function(f) for f in fns])
     else:
         raise ValueError(api)
@@ -173,6 +177,11 @@ def observe(api: str, M0: onnx.ModelProto, o: dict) -> dict:
     fns = None
     if api == "replace_functions":
         M0, fns = split_functions(M0)
+        fns_before = [_bytes(f) for f in fns]
+    elif api == "replace_functions_keep":
+        # the model keeps its own local functions; the replacement is the expansion of c15.repl::Triple only
+        opset = next((o_.version for o_ in M0.opset_import if o_.domain == ""), 18)
+        fns = [c15_gen.triple_function(opset)]
         fns_before = [_bytes(f) for f in fns]
     before = _bytes(M0)
     NM = ir.serde.serialize_model(ir.serde.deserialize_model(M0))
